@@ -30,7 +30,7 @@ RULE = ("case = generated project rich in shared sub-recipes reached under diffe
 COMPONENTS = {"real": ["bob.input.RecipeSet.parse/generatePackages, Recipe.prepare memo (PackageMatcher), YamlCache, PackagePickler",
                        "bob.pathspec PackageSet queries incl. .bob-tree.sqlite3"],
               "stub": ["stat clock of project files", "name formatter (pure function of step)"],
-              "not_exercised": ["sandbox-enabled graph (.bob-packages-sb.pickle)", "layers", "plugins"]}
+              "not_exercised": ["layers", "plugins"]}
 ASSUMPTIONS = ["every file modification changes the file's stat data (fresh mtime, or at least ctime / inode)"]
 SHRINK = ["steps"]
 
@@ -124,7 +124,7 @@ def gen_case(rng, tier, index):
         return {"model": model, "steps": steps}
     feats = {"vars", "depenv", "diamond"} | set(rng.sample(["tools", "provideVars", "classes", "forward", "provideDeps", "ifdeps",
                                                             "substenv", "checkoutscript", "import", "weak", "nobuild",
-                                                            "inhtools", "inhtools"], rng.randint(2, 7)))
+                                                            "inhtools", "inhtools", "sandbox", "ifdeps"], rng.randint(2, 7)))
     model = projgen.gen_valid_project(rng, nmin=4, nmax=8, features=feats)
     steps = [{"defines": {}}]
     hist = [model]
@@ -157,12 +157,15 @@ def gen_case(rng, tier, index):
             st["defines"] = {rng.choice(projgen.VARPOOL): rng.choice(["x", "d1", "q%d" % rng.randrange(5)])}
         if rng.random() < 0.2:
             st["clockjump"] = rng.choice([-100000, -5, 3600])
+        if "sandbox" in feats and rng.random() < 0.45:
+            # the same project directory (and its caches) is used with and without --sandbox
+            st["sandbox"] = True
         steps.append(st)
     return {"model": model, "steps": steps}
 
 # ---------------------------------------------------------------------------
 
-def _dump(cwd, defines, cold, pkgck, queries):
+def _dump(cwd, defines, cold, pkgck, queries, sandbox=False):
     os.chdir(cwd)
     import bob
     import bob.input as I
@@ -187,7 +190,7 @@ def _dump(cwd, defines, cold, pkgck, queries):
         recipes = I.RecipeSet()
         recipes.parse(dict(defines))
         fmt = lambda step, props: os.path.join("ws", step.getLabel(), step.getPackage().getRecipe().getPackageName().replace("::", "/"))
-        packages = recipes.generatePackages(fmt, False)
+        packages = recipes.generatePackages(fmt, bool(sandbox))
         root = packages.getRootPackage()
         out = {}
         def step_dump(s):
@@ -296,9 +299,12 @@ def run_case(case):
             cold_dir = os.path.join(top, "cold%d" % n, "proj")
             os.makedirs(cold_dir)
             projgen.materialise(model, cold_dir)
-            w = common.run_forked(_dump, proj, defines, False, False, QUERIES, timeout=120)
-            w2 = common.run_forked(_dump, proj, defines, False, True, QUERIES, timeout=120)
-            c = common.run_forked(_dump, cold_dir, defines, True, False, QUERIES, timeout=120)
+            sb = bool(st.get("sandbox"))
+            if sb:
+                stats.inc("dumps_with_sandbox")
+            w = common.run_forked(_dump, proj, defines, False, False, QUERIES, sb, timeout=120)
+            w2 = common.run_forked(_dump, proj, defines, False, True, QUERIES, sb, timeout=120)
+            c = common.run_forked(_dump, cold_dir, defines, True, False, QUERIES, sb, timeout=120)
             common.rmtree(os.path.join(top, "cold%d" % n))
             stats.inc("dumps")
             for name, r in (("warm", w), ("warm-pkgck", w2), ("cold", c)):
